@@ -441,7 +441,7 @@ pub fn check(tier: Tier, seed: u64) -> PropReport {
                 let mut st = Stats::default();
                 for c in ch.iter() {
                     st.evaluations += 1;
-                    match Matrix.run(c, &mut st) {
+                    match run_guarded(&Matrix, c, &mut st) {
                         Ok(()) => st.commit_case(c),
                         Err(m) => {
                             let mut f = failure.lock().unwrap();
